@@ -637,6 +637,10 @@ func main() {
 		raceWorker(os.Args[2:])
 	case "selftest":
 		selftest(os.Args[2:])
+	case "digest":
+		digestCmd(os.Args[2:])
+	case "diffcases":
+		diffCasesCmd(os.Args[2:])
 	case "list":
 		ids := []string{}
 		for id := range props {
